@@ -20,6 +20,7 @@ def run(tier, seed):
     if not e1['ok']:
         raise vlib.Broken('InjectE1: the credential decision model does not match the map contract:\n' + e1['out'][-2500:])
     col = daemon.colliding_uids(drv, wd, 150000 if tier != 'thorough' else 600000)
+    blocked = daemon.blocked_uids(drv, wd, rnd, k=40 if tier == 'thorough' else 8)
     plain = ['a', 'b', 'c', 'job@host', 'x' * 200]
     scripts = []
     n = 20000 if tier == 'thorough' else 2500
@@ -39,6 +40,8 @@ def run(tier, seed):
             scripts.append(daemon.map_script(rnd, pool, peers=rnd.choice([(1000, 1001), (1000, 1001, 1002), (1000, 2001, 2002, 2035)]), nreq=rnd.choice([25, 40, 60]), listy=True))
             continue
         scripts.append(daemon.map_script(rnd, pool, peers=peers, nreq=rnd.choice([3, 5, 8, 14])))
+    for t, blk in blocked:
+        scripts.append(daemon.overflow_script(rnd, t, blk))
     recs = daemon.run_many(drv, scripts, wd)
     trace = f'{wd}/map.ndjson'
     with open(trace, 'w') as f:
@@ -55,7 +58,7 @@ def run(tier, seed):
     nitems = sum(len(e.get('items', [])) for r in recs for e in r['ev'] if e['e'] == 'Req')
     cov = {'states': e1['states'], 'transitions': e1['transitions'], 'traces_validated_against_impl': v['n'],
            'samples': [{'events': [e for e in recs[0]['ev'] if e['e'] != 'State']}], 'evaluations': v['n'], 'distinct_nontrivial': len(set('\n'.join(c) for c, _ in scripts)),
-           'rule': 'one case = one history of requests against the real cmd_ical()/cmd_http() with chosen peer credentials: adds (1..3 events per request, optional X-ECHS-OWNER by uid or name, own/other/unknown), cancels, GET /sched, /queue (UIDs and the DTSTART each task is shown with) and /u/<other>/...; every request occupies a slot of the connection table of the daemon (make_conn/free_conn), in one history in eight other peers hold 30..63 connections open meanwhile, one in fifty is a burst of 14..20 changes by one user followed by a change and a listing of another user, one in fifty is connections coming and going only (up to and beyond 64); one history in eight is long (25..60 requests, half of them listings, the checkpoint timer in between); peers incl. root, a uid without passwd entry and up to 9 users; UID strings chosen with the real hash so that groups of 2..4 share 4..16 low bits of their table key',
+           'rule': 'one case = one history of requests against the real cmd_ical()/cmd_http() with chosen peer credentials: adds (1..3 events per request, optional X-ECHS-OWNER by uid or name, own/other/unknown), cancels, GET /sched, /queue (UIDs and the DTSTART each task is shown with) and /u/<other>/...; every request occupies a slot of the connection table of the daemon (make_conn/free_conn), in one history in eight other peers hold 30..63 connections open meanwhile, one in fifty is a burst of 14..20 changes by one user followed by a change and a listing of another user, one in fifty is connections coming and going only (up to and beyond 64); one history in eight is long (25..60 requests, half of them listings, the checkpoint timer in between); peers incl. root, a uid without passwd entry and up to 9 users; UID strings chosen with the real hash so that groups of 2..4 share 4..16 low bits of their table key, and so that the nine places the UID table probes first for the UID of one user are taken by UIDs of another user (the UID lives in the overflow area of the table)',
            'requests': nreq, 'request_items': nitems, 'listings': nhttp, 'colliding_uid_groups': len(col), 'mismatching_runs': v['nbad'],
            'e1_conn': 'ConnTable.tla (2 x 2 slots, 7 connections): SlotsSound, NoTakeover, RefusedOnlyWhenFull hold for the repaired search and fail for the as-found one', 'e1': 'InjectE1: credential case analysis of _inject_task1/_eject_task1 equals the map contract for 4 peers x 4 owner fields x every reachable 2-UID map (histories <= 3)', 'exhaustive': False}
     return vlib.finish(PID, tier, seed, 'model_checking', cov, t0, unlisted, listed,
